@@ -734,6 +734,20 @@ func (e *Env) evalCall(x *ast.CallExpr) TV {
 				r = a.term()
 			}
 			return boolTV(lt(r, e.vc.allocOf(e.st)))
+		case "olderThan":
+			// olderThan(p, q): object p was allocated before object q (references are handed out in allocation order: a
+			// fresh reference is the allocation pointer, which only grows). Go code cannot observe the order; contracts may
+			// use it as a well-founded rank for "children are younger than their parent" (acyclic, tree-shaped structures).
+			ref := func(a TV) string {
+				switch v := a.V.(type) {
+				case Ptr:
+					return v.Base
+				case *SliceV:
+					return v.Arr
+				}
+				return a.term()
+			}
+			return boolTV(lt(ref(e.eval(x.Args[0])), ref(e.eval(x.Args[1]))))
 		case "unchangedExcept":
 			// unchangedExcept(s, lo, hi): the backing array of s is unchanged since old() outside s[lo:hi]
 			a := e.eval(x.Args[0])
